@@ -765,6 +765,8 @@ class Interp(object):
 def check(run, repo, tier):
   w = World(repo)
   ip = Interp(w)
+  if ip is None:
+    return          # (reported as an analysis error)
   run.assume("the keyword list of the interpreter that runs the engine equals this analyser's "
              "keyword.kwlist (%d words)" % len(KWLIST))
   r1_shape(run, w, ip)
@@ -861,12 +863,30 @@ def _arms_of(v, value, at, facts):
   return v.alternatives(value, at=at, facts=facts)
 
 
+def _uppercaser(w):
+  """The function that upper-cases an avoid set: the module function every pick_* applies to its
+  avoid parameter first (today: _uppercase)."""
+  mod = w.repo.module(M)
+  cands = []
+  for name, fi in mod.functions.items():
+    if not name.startswith("pick_") or len(fi.params()) < 2:
+      continue
+    av = fi.params()[1]
+    for s in walk_no_nested(fi.node):
+      if isinstance(s, ast.Assign) and text(s.targets[0]) == av and \
+          isinstance(s.value, ast.Call) and dotted(s.value.func) in mod.functions and \
+          len(s.value.args) + len(s.value.keywords) == 1:
+        cands.append(mod.functions[dotted(s.value.func)])
+  return H._pick(cands, "_uppercase", "identifiers: the function that upper-cases the avoid set")
+
+
 def r2_avoid(run, w, ip):
   R2 = run.rule("C21-R2", "every returned candidate is tested, upper-cased, against the "
                 "upper-cased avoid set", floor=8)
   mod = w.repo.module(M)
   helpers = _helpers_with_avoid(w, ip)
-  up = w.repo.func(M + "._uppercase")
+  up = _uppercaser(w)
+  UP = up.name
   uv = H.View(w.fn_of(up))
   rets = [s for s in walk_no_nested(up.node) if isinstance(s, ast.Return)]
   p = up.params()[0]
@@ -891,7 +911,7 @@ def r2_avoid(run, w, ip):
       # the avoid set is upper-cased before anything uses it
       ups = {n.id for n in cfg.nodes if n.kind == "stmt" and isinstance(n.stmt, ast.Assign) and
              text(n.stmt.targets[0]) == av and
-             text(v.positional(copy.deepcopy(n.stmt.value))) == "_uppercase(%s)" % av}
+             text(v.positional(copy.deepcopy(n.stmt.value))) == "%s(%s)" % (UP, av)}
       uses = {n.id for n in cfg.nodes if n.stmt is not None and n.id not in ups and
               any(isinstance(x, ast.Name) and x.id == av and isinstance(x.ctx, ast.Load)
                   for e in n.exprs for x in ast.walk(e))}
@@ -1078,10 +1098,10 @@ def r4_call_sites(run, w):
   if n < 2:
     raise AnalysisError("fewer than 2 call sites of pick_col_ident_list found")
   # (b) _pick_col_name builds the avoid set from the table, 'id', sibling summary tables
-  H.require(w, "useractions.UserActions._pick_col_name",
-            "useractions.UserActions._adjust_one_column_update")
+  roles = H.role_anchors(w)
+  PCN = roles["pick_col_name"].name
   run0 = run
-  fn = H.xfn(w, "useractions.UserActions._pick_col_name", keep=KEEP)
+  fn = H.xfn(w, roles["pick_col_name"].qualname, keep=KEEP)
   fi = fn.fi
   v = H.View(fn)
   run = H.Guarded(run0, v, keep=KEEP)
@@ -1089,7 +1109,7 @@ def r4_call_sites(run, w):
   ps = fi.params()       # cls, table_rec, col_id, old_col_id, avoid_extra
   picks = [(nd, c) for (nd, c, nm) in fn.calls() if endswith(nm, "identifiers.pick_col_ident")]
   if len(picks) != 1:
-    raise AnalysisError("_pick_col_name: one pick_col_ident call expected")
+    raise AnalysisError("%s: one pick_col_ident call expected" % PCN)
   pn, pc = picks[0]
   av = _kw_or_pos(pc, idmod.functions["pick_col_ident"].params(), "avoid")
   if not isinstance(av, ast.Name) or v.value_at(av.id, pn.id) is not None:
@@ -1137,11 +1157,11 @@ def r4_call_sites(run, w):
          "names picked earlier in the same bundle are avoided", bool(ext) and
          bool(cfg.reach_after(ext) & {pn.id}), fi=fi)
   # (c) batches: picks are recorded before the next pick
-  a1 = H.xfn(w, "useractions.UserActions._adjust_one_column_update", keep=KEEP)
+  a1 = H.xfn(w, roles["adjust_one"].qualname, keep=KEEP)
   v1 = H.View(a1)
   aps = a1.fi.params()
   run = H.Guarded(run0, v1, involved=tuple(aps[3:4]), keep=KEEP)
-  calls = [(nd, c) for (nd, c, nm) in a1.calls() if endswith(nm, "self._pick_col_name")]
+  calls = [(nd, c) for (nd, c, nm) in a1.calls() if endswith(nm, "self." + PCN, "cls." + PCN)]
   ok = False
   if len(calls) == 1:
     nd, c = calls[0]
@@ -1166,7 +1186,7 @@ def r4_call_sites(run, w):
   vu = H.View(ucr)
   run = H.Guarded(run0, vu, keep=KEEP)
   calls = [(nd, c) for (nd, c, nm) in ucr.calls()
-           if endswith(nm, "self._adjust_one_column_update")]
+           if endswith(nm, "self." + roles["adjust_one"].name)]
   ok = False
   if len(calls) == 1:
     nd, c = calls[0]
